@@ -506,13 +506,16 @@ def classify(items, walkres=None):
 
 UNUSUAL = ['undefined-label', 'duplicate-label', 'keyword-label', 'huge-literal', 'minus-at-eof', 'opcode-at-eof', 'opr-anything', 'stray-operand',
            'func-no-name', 'func-number', 'unaligned-abs', 'self-reference', 'only-labels', 'empty', 'comment-eof', 'label-underscore', 'negative-data',
-           'many-labels', 'long-identifier', 'nul-and-high-bytes']
+           'many-labels', 'long-identifier', 'nul-and-high-bytes', 'crlf', 'cr-only', 'label-at-eof', 'digit-run', 'odd-whitespace', 'comment-glued']
+
+LAST = {'kind': None}       # irregularity of the most recent gen_unusual call (for classification only)
 
 
 def gen_unusual(r, want=None):
     items = gen_random_program(r)
     text = render(items, r.randint(0, 10))
     m = want or r.choice(UNUSUAL)
+    LAST['kind'] = m
     lines = text.splitlines()
     pos = r.randint(0, len(lines))
     if m == 'undefined-label':
@@ -563,4 +566,22 @@ def gen_unusual(r, want=None):
         lines.insert(pos, nm + '\nBR ' + nm)
     elif m == 'nul-and-high-bytes':
         lines.insert(pos, r.choice(['\x00', '\xff', 'BR \xe9', 'DATA 1\x00', '\x7f']))
+    elif m == 'crlf':
+        return '\r\n'.join(lines) + r.choice(['', '\r\n', '\r'])
+    elif m == 'cr-only':
+        return '\r'.join(lines) + r.choice(['', '\r'])
+    elif m == 'label-at-eof':
+        lines.append(r.choice(['E7', 'BR E7\nE7', 'E7 ', 'DATA 1\nE7', 'FUNC E7', 'PROC E7\nE7']))
+        return '\n'.join(lines)
+    elif m == 'digit-run':
+        run = r.choice(['', '-']) + r.choice(['', '0' * r.choice([1, 40, 600])]) + ''.join(r.choice('0123456789') for _ in range(r.choice([31, 64, 300, 2000, 5000])))
+        lines.insert(pos, '%s %s' % (r.choice(IMM + ['DATA']), run))
+        if r.random() < 0.3:
+            return '\n'.join(lines)        # possibly the last token of the file
+    elif m == 'odd-whitespace':
+        sep = r.choice(['\t', '\x0b', '\x0c', '  \t ', '\xa0'])
+        lines = [ln.replace(' ', sep) if r.random() < 0.5 else ln for ln in lines]
+        lines.insert(pos, r.choice(['\t', '\x0c', ' \t \x0b']))
+    elif m == 'comment-glued':
+        lines.insert(pos, r.choice(['LDAC 1# c', 'G5# c\nBR G5', 'DATA 3#', 'BR#\n', 'OPR ADD#x', '#\x00', '##', 'LDAC -#1']))
     return '\n'.join(lines) + '\n'
